@@ -543,7 +543,8 @@ func (trie *PatriciaTrie) put(curNode *PatriciaNode, key string, data types.Node
 					dye:      child.dye,
 					terminal: child.terminal,
 					data:     child.data,
-					children: child.children,
+					// copy: the old node stays alive in other blocks' tries, and a read-through insert appends to its children in place
+					children: append([]*PatriciaNode(nil), child.children...),
 				}
 
 				node := &PatriciaNode{ // d#
